@@ -437,7 +437,8 @@ func (g *genStorage) postOp(rng *Rng, u, f int, payOnce bool) Op {
 	if g.profile == "usage" || (g.profile == "mixed" && rng.Chance(1, 4)) {
 		// declared size (the chain cannot check it): from bytes to more than any plan
 		op = op.withN("size", rng.Pick64(1, 1000, 1_000_000, 400_000_000, 999_999_999, 1_000_000_000, 3_000_000_000, 40_000_000_000, 1_000_000_000_000, 60_000_000_000_000,
-			math.MaxInt64, math.MaxInt64/2+1, math.MaxInt64/3, math.MaxInt64-999_999_999))
+			math.MaxInt64, math.MaxInt64/2+1, math.MaxInt64/3, math.MaxInt64-999_999_999, 1<<62, 1<<61+5, 1<<63/5+1))
+		op = op.withN("max", rng.Pick64(1, 2, 3, 4, 5, 8, 16))
 	}
 	if payOnce {
 		// expiry in blocks: around a day (14400 blocks) and longer
